@@ -85,5 +85,5 @@ var allBranches = []string{
 	"br:UpdatePod:pending", "br:UpdatePod:pending-but-binding-known", "br:UpdatePod:node-not-found", "br:UpdatePod:node-not-found-binding-known",
 	"br:UpdatePod:new-binding", "br:UpdatePod:same-binding", "br:UpdatePod:moved-cleans-old-node", "br:UpdatePod:moved-old-node-gone",
 	"br:updateForPod:daemonset", "br:updateForPod:cost-positive", "br:updateForPod:cost-nonpositive",
-	"br:Mark:hit", "br:Mark:miss", "br:Unmark:hit", "br:Unmark:miss", "br:UpdatePod:rewritten-on-same-node-leaves-stale-entry",
+	"br:Mark:hit", "br:Mark:miss", "br:Unmark:hit", "br:Unmark:miss", "br:UpdatePod:rewritten-on-same-node-leaves-stale-entry", "br:UpdateNode:fails-pod-volume-unresolvable", "br:VolumeUsage.DeletePod:twice-without-node-reconcile", "br:UpdatePod:fails-volume-unresolvable",
 }
